@@ -12,12 +12,28 @@ TECHNIQUE = "def-use on the returned threshold, R-LIN integer identities for the
 
 INS = tables.INS
 
-# np.argmax(<comparison>) used as a first-true index: function -> why a True element exists / why 0 is a safe answer
+# first-true idioms - np.argmax(<comparison>) (answers 0 when nothing is True) and np.flatnonzero / np.where /
+# np.nonzero(<comparison>)[0] (raise IndexError when nothing is True): function -> (can the mask be all False?, why)
 ARGMAX_REVIEWED = {
-    "determine_threshold_quantile": "cutoff is a Harrell-Davis quantile: a convex combination of the data (weights sum to betainc(1)-betainc(0)=1), so max(a) >= cutoff; a rounding miss gives 0, which the caller turns into min_remove",
-    "determine_threshold_entropy": "the CDF is divided by its last element, so cdf[-1] = 1 >= q for every q <= 1",
-    "add_new_proposal": "all-False gives 0, i.e. train on every stored sample, which satisfies the min_samples floor",
+    "determine_threshold_quantile": (True, "the cut-off is a Harrell-Davis quantile, a convex combination of the data only up to round-off: for tied maxima it can land one ulp above max(a); the all-False answer 0 of argmax is then raised to min_remove / min_samples by the caller's clamps"),
+    "determine_threshold_entropy": (False, "the CDF is divided by its last element, so cdf[-1] = 1 >= q for every q <= 1"),
+    "add_new_proposal": (True, "all-False gives 0, i.e. train on every stored sample, which satisfies the min_samples floor"),
 }
+
+
+def first_true_sites(root):
+    """[(node, kind, mask)]: kind 'argmax' (total, 0 when all False) or 'raising' (IndexError when all False)."""
+    out = []
+    for n in walk_no_nested(root):
+        if isinstance(n, ast.Call) and call_name(n) in ("np.argmax", "numpy.argmax") and n.args and isinstance(n.args[0], ast.Compare):
+            out.append((n, "argmax", n.args[0]))
+        if isinstance(n, ast.Subscript) and isinstance(n.slice, ast.Constant) and n.slice.value == 0:
+            v = n.value
+            if isinstance(v, ast.Subscript) and isinstance(v.slice, ast.Constant) and v.slice.value == 0:
+                v = v.value  # np.where(mask)[0][0]
+            if isinstance(v, ast.Call) and (call_name(v) or "").split(".")[-1] in ("flatnonzero", "where", "nonzero", "argwhere") and v.args and isinstance(v.args[0], ast.Compare):
+                out.append((n, "raising", v.args[0]))
+    return out
 
 
 def run(ctx):
@@ -158,11 +174,24 @@ def run(ctx):
     ins = prog.cls(INS)
     seen = set()
     for m in ins.methods.values():
-        for n in walk_no_nested(m.node):
-            if isinstance(n, ast.Call) and call_name(n) in ("np.argmax", "numpy.argmax") and n.args and isinstance(n.args[0], ast.Compare):
-                seen.add(m.name)
-                ctx.ob("R-ARGMAX", "C17.4", m, "np.argmax(<predicate>) used as first-true index has a reviewed all-False story", m.name in ARGMAX_REVIEWED, ARGMAX_REVIEWED.get(m.name, f"unreviewed site `{src(n)[:80]}`: argmax of an all-False mask is 0, not 'none'"), node=n)
-    ctx.require(seen >= set(ARGMAX_REVIEWED), f"reviewed argmax sites vanished: {set(ARGMAX_REVIEWED) - seen}")
+        fa_m = None
+        for n, kind, mask in first_true_sites(m.node):
+            seen.add(m.name)
+            rv = ARGMAX_REVIEWED.get(m.name)
+            if rv is None:
+                ctx.ob("R-ARGMAX", "C17.4", m, "a first-true search has a reviewed all-False story", False, f"unreviewed site `{src(n)[:80]}`: argmax of an all-False mask is 0 and [0] of an empty index array raises", node=n)
+                continue
+            can_be_empty, why = rv
+            ok = True
+            if kind == "raising" and can_be_empty:
+                # acceptable only when the empty case is handled: inside try/except IndexError or under an .any() guard
+                fa_m = fa_m or FA(m)
+                handled = any(isinstance(t, ast.Try) and any(h.type is None or "IndexError" in src(h.type) or "Exception" in src(h.type) for h in t.handlers) and any(x is n for b in t.body for x in ast.walk(b)) for t in ast.walk(m.node))
+                guarded = any(".any()" in src(e) or "any(" in src(e) for e, t in guard_facts(fa_m, fa_m.cfg.id_of(n)) if t)
+                ok = handled or guarded
+                why = f"`{src(n)[:60]}` raises IndexError when no element satisfies the predicate, and here that can happen: {why}"
+            ctx.ob("R-ARGMAX", "C17.4", m, "a first-true search has a reviewed all-False story (argmax answers 0; an index of an empty selection raises and must be guarded)", ok, why, node=n)
+    ctx.require(seen >= set(ARGMAX_REVIEWED), f"reviewed first-true sites vanished: {set(ARGMAX_REVIEWED) - seen}")
     # supports of the reviewed reasons
     ge = ctx.fn(INS + ".determine_threshold_entropy")
     norm = _fs("$$c /= $$c[-1]", ge.node)
@@ -173,7 +202,7 @@ def run(ctx):
     gq = ctx.fn(INS + ".determine_threshold_quantile")
     aq = _fs(f"$$a = {gq.params()[1]}['logL']", gq.node)
     cq_ = _fs("$$c = weighted_quantile($$a, q, log_weights=$$w, values_sorted=True)", gq.node, aq[0][1] if aq else None)
-    okq = len(aq) == 1 and len(cq_) == 1 and len(_fe("argmax($$a >= $$c)", gq.node, cq_[0][1])) == 1
+    okq = len(aq) == 1 and len(cq_) == 1 and any(len(_fe(pat_, gq.node, cq_[0][1])) == 1 for pat_ in ("argmax($$a >= $$c)", "flatnonzero($$a >= $$c)[0]", "where($$a >= $$c)[0][0]", "nonzero($$a >= $$c)[0][0]"))
     ctx.ob("R-ARGMAX", "C17.4", gq, "quantile method: the cut-off is a weighted quantile of the same likelihood array that is searched", okq, "")
     ctx.floor("C17.4", 5)
 
@@ -226,6 +255,7 @@ MUTANTS = [
     {"id": "cap-before-min-samples", "file": _F, "edits": [(_F, "        if (\n            self.draw_constant\n            and self.max_samples\n            and ((samples.size - n) + self.nlive) > self.max_samples\n        ):\n            n = samples.size - self.max_samples + self.nlive\n            logger.warning(\n                \"Next level would have more than max samples, \"\n                f\"removing {n} samples\"\n            )\n\n", ""), (_F, "        if (samples.size - n) < self.min_samples:\n            logger.warning(\n                f\"Cannot remove {n} from", "        if (\n            self.draw_constant\n            and self.max_samples\n            and ((samples.size - n) + self.nlive) > self.max_samples\n        ):\n            n = samples.size - self.max_samples + self.nlive\n        if (samples.size - n) < self.min_samples:\n            logger.warning(\n                f\"Cannot remove {n} from")], "expect": "clamps are applied in the order"},
     {"id": "training-floor-dropped", "file": _F, "old": "            self.training_samples.samples.size - self.min_samples,\n        )", "new": "            self.training_samples.samples.size,\n        )", "expect": "training starts at"},
     {"id": "training-logq-misaligned", "file": _F, "old": "        self.current_training_log_q = self.training_samples.log_q[\n            n_train:, :\n        ].copy()", "new": "        self.current_training_log_q = self.training_samples.log_q[\n            n_train + 1 :, :\n        ].copy()", "expect": "same tail slice"},
+    {"id": "quantile-first-true-raises", "file": _F, "old": "        n = np.argmax(a >= cutoff)", "new": "        n = np.where(a >= cutoff)[0][0]", "expect": "first-true search"},
     {"id": "new-argmax-site", "file": _F, "old": "        n_removed = self.training_samples.remove_samples()\n", "new": "        n_removed = self.training_samples.remove_samples()\n        n_chk = np.argmax(self.live_points_unit[\"logL\"] >= self.log_likelihood_threshold)\n", "expect": "first-true index"},
     {"id": "cdf-not-normalised", "file": _F, "old": "        cdf /= cdf[-1]\n", "new": "        cdf /= cdf.sum()\n", "expect": "CDF is normalised"},
     {"id": "validation-dropped", "file": _F, "old": "        if self.min_samples > self.nlive:\n            raise ValueError(\"`min_samples` must be less than `nlive`\")\n", "new": "", "expect": "are rejected"},
